@@ -1,0 +1,92 @@
+//go:build verif
+
+package vm
+
+import (
+	"unsafe"
+
+	"github.com/goghcrow/yae/compiler"
+	"github.com/goghcrow/yae/parser/ast"
+	"github.com/goghcrow/yae/types"
+	"github.com/goghcrow/yae/val"
+)
+
+// Hooks for the verification harness in /verif (compiled only with -tags verif): run the call-threaded dispatch
+// loop, and look at the emitted bytecode and constant pool.
+
+// VerifCompileCallThreading is Compile with the call-threaded dispatch loop instead of the switch loop.
+func VerifCompileCallThreading(expr ast.Expr, env1 *val.Env) compiler.Closure {
+	bytecode := NewCompile().Compile(expr, env1)
+	return func(env *val.Env) *val.Val {
+		v := NewVM()
+		v.interp = callThreading
+		return v.Interp(bytecode, env)
+	}
+}
+
+// VerifConst is one constant-pool entry: exactly one of the fields is set according to Kind
+// ("val", "fun", "thunk", "type", "name").
+type VerifConst struct {
+	Kind  string
+	Val   *val.Val
+	Ty    *types.Type
+	Name  string
+	Thunk []byte // code of the deferred argument; it shares the pool
+}
+
+// VerifBytecode compiles expr and returns the main code object and the constant pool.
+func VerifBytecode(expr ast.Expr, env1 *val.Env) (code []byte, pool []VerifConst) {
+	b := NewCompile().Compile(expr, env1)
+	for _, c := range b.data {
+		switch x := c.(type) {
+		case *val.Val:
+			if x.Type.Kind == types.KFun {
+				if f := x.Type.Fun(); f.Name == "thunk" && len(f.Param) == 0 {
+					t := (*thunkVal)(unsafe.Pointer(x))
+					pool = append(pool, VerifConst{Kind: "thunk", Ty: x.Type, Thunk: append([]byte{}, t.bytecode.code...)})
+				} else {
+					pool = append(pool, VerifConst{Kind: "fun", Val: x})
+				}
+			} else {
+				pool = append(pool, VerifConst{Kind: "val", Val: x})
+			}
+		case *types.Type:
+			pool = append(pool, VerifConst{Kind: "type", Ty: x})
+		case string:
+			pool = append(pool, VerifConst{Kind: "name", Name: x})
+		default:
+			// ast attaches types as interface{}; anything else is reported as such
+			if t, ok := c.(interface{}); ok && t == nil {
+				pool = append(pool, VerifConst{Kind: "nil"})
+			} else {
+				pool = append(pool, VerifConst{Kind: "other"})
+			}
+		}
+	}
+	return append([]byte{}, b.code...), pool
+}
+
+// VerifOpcodes lists the opcode names in numbering order.
+func VerifOpcodes() []string {
+	var xs []string
+	for op := opcode(0); op < _END_; op++ {
+		xs = append(xs, op.String())
+	}
+	return xs
+}
+
+// VerifIntrinsics returns, for a built-in function value, the opcode that replaces a call by value ("" if none)
+// and whether a call-by-need scheme (jump code) replaces it.
+func VerifIntrinsics(f *val.Val) (cbv string, cbn bool) {
+	if op, ok := intrinsicsCallByValue[f]; ok {
+		cbv = op.String()
+	}
+	_, cbn = intrinsicsCallByNeed[f]
+	return
+}
+
+const (
+	VerifStackInit = stackInit
+	VerifStackGrow = stackGrow
+	VerifLimit     = limit
+)
